@@ -82,7 +82,9 @@ def make_prov(I, exprs_json, n_units, n_cands=2, keys=None, lazy=False, ckeys=No
         # the default one-row-per-unit container OBJECT, edited in place (item assignment, insert, delete) until it holds the same formulas
         prov = P.Provenance(units=raw)
         for i in range(min(len(es), len(prov))):
-            if exprs_json[i] != {"eq": [i, 1]}:
+            # with two candidates default row i is (unit i == candidate 1) and may be kept; with more candidates the default object holds one row per
+            # (unit, non-null candidate) in another order, so every row is assigned
+            if n_cands != 2 or exprs_json[i] != {"eq": [i, 1]}:
                 prov[i] = es[i]
         if len(es) < len(prov):
             del prov[len(es):]
